@@ -242,7 +242,8 @@ def ops_equivalent(cirq, sympy, a, b, path=''):
             return f'{path}: {type(ua).__name__} vs {type(ub).__name__}'
         if ua.repetitions != ub.repetitions and ua.repetitions == -ub.repetitions and ua.repetitions < 0 and ua.repetition_ids == ub.repetition_ids and ua.use_repetition_ids:
             NEGATIVE_REPS_WITH_IDS.append(repr(ua)[:300])  # reported separately (the message holds a count or ids, not both); keep comparing
-        elif ua.repetitions != ub.repetitions or ua.repetition_ids != ub.repetition_ids or dict(ua.qubit_map) != dict(ub.qubit_map) or dict(ua.measurement_key_map) != dict(ub.measurement_key_map):
+        elif ua.repetitions != ub.repetitions or ua.repetition_ids != ub.repetition_ids or dict(ua.qubit_map) != dict(ub.qubit_map) or dict(ua.measurement_key_map) != dict(ub.measurement_key_map) \
+                or ua.use_repetition_ids != ub.use_repetition_ids or cirq.measurement_key_objs(ua) != cirq.measurement_key_objs(ub) or tuple(ua.parent_path) != tuple(ub.parent_path):
             return f'{path}: circuit-operation attributes differ: {ua!r} vs {ub!r}'
         return circuits_equivalent(cirq, sympy, ua.circuit, ub.circuit, path + '/sub')
     ga, gb = ua.gate, ub.gate
